@@ -170,6 +170,14 @@ def run(ctx):
                 if nv < 0 or nv > 99999999:
                     continue
                 faults.append((fld, {'header_field': (fld, nv)}))
+        if cell[0] != 'FCS2.0' and spec['offsets'] == 'header' and spec.get('text_offsets', 'same') == 'same':
+            # one HEADER DATA offset zeroed (the other moved by a byte): the pair in TEXT, when it is there, is the only
+            # complete declaration; no reader may combine half of one declaration with half of the other
+            for d_ in (-1, 1, 2):
+                faults.append(('data_begin+end0', {'header_fields': {'data_begin': lay['data_begin'] + d_, 'data_end': 0}}))
+                faults.append(('data_end+begin0', {'header_fields': {'data_begin': 0, 'data_end': lay['data_end'] + d_}}))
+            faults.append(('data_end0', {'header_fields': {'data_end': 0}}))
+            faults.append(('data_begin0', {'header_fields': {'data_begin': 0}}))
         nfault = 0
         for name, change in faults:
             sp = dict(spec)
@@ -185,6 +193,8 @@ def run(ctx):
                 if N == 0:
                     ctx.note('zero-event $PAR corruption (not judged)')
                     continue
+            if 'header_fields' in change:
+                sp['header_override'] = dict(change['header_fields'])
             if 'header_field' in change:
                 fld, nv = change['header_field']
                 if fld.startswith('data') and spec['offsets'] == 'text':
